@@ -63,9 +63,13 @@ def parseOperand (site : Nat × Nat) (s : String) : Option Operand :=
         let pkg ← hexDecode pkg; let name ← hexDecode name; let typ ← hexDecode typ
         pure (Val.global pkg name typ)
       | ["b", name] => do let name ← hexDecode name; pure (Val.builtin name)
-      | ["fn", name, sig] => do
+      | ["fn", name, sig, rel] => do
         let name ← hexDecode name; let sig ← hexDecode sig
-        pure (Val.func name sig)
+        let rel ← if rel == "self" then some FuncRel.self
+                  else if rel == "ext" then some FuncRel.external
+                  else if rel.startsWith "local." then (hexDecode (String.ofList (rel.toList.drop 6))).map FuncRel.localTo
+                  else none
+        pure (Val.func name sig rel)
       | _ => none)
     pure { val := some v, tf := tf }
   | _ => none
